@@ -114,6 +114,14 @@ pub fn gen(prop: &str, tier: &str, seed: u64, out: &mut Vec<String>) {
                         continue;
                     }
                     out.push(format!("flip {} {bs}", blob_desc(&mut r, size)));
+                    // arbitrary contents: only the geometry matters
+                    out.push(format!("flipx {} {size} {bs}", r.below(1 << 30)));
+                }
+                for groups in 1..=if t { 70u64 } else { 34 } {
+                    let g = 1024u64 << bs;
+                    for size in [groups * g, groups * g - r.below(g)] {
+                        out.push(format!("flipx {} {size} {bs}", r.below(1 << 30)));
+                    }
                 }
             }
         }
